@@ -85,6 +85,11 @@ def detect(name, checks):
     if rc != 0:
         print("patch does not apply:", out); return 2
     results = {}
+    # the evidence files belong to the unchanged tree: what the checks write while the change is applied is put back
+    saved = {}
+    for c in checks:
+        ep = os.path.join(V, "evidence", c + ".json")
+        saved[ep] = open(ep, "rb").read() if os.path.exists(ep) else None
     try:
         for c in checks:
             t = time.time()
@@ -101,6 +106,9 @@ def detect(name, checks):
             print(name, c, "exit", rc, "violations", len(viol), classes[:4])
     finally:
         sh("git -C /repo checkout -- .")
+        for ep, data in saved.items():
+            if data is not None:
+                open(ep, "wb").write(data)
     p = os.path.join(d, "detect.json")
     old = json.load(open(p)) if os.path.exists(p) else {}
     old.update(results)
